@@ -1223,7 +1223,20 @@ type propsJSON struct {
 	MaxDownresLevel uint8
 }
 
+// copyMaxLabels returns a snapshot of the max label data taken under its mutex, since
+// background goroutines update MaxLabel while metadata is being marshaled.
+func (d *Data) copyMaxLabels() (map[dvid.VersionID]uint64, uint64) {
+	d.mlMu.RLock()
+	defer d.mlMu.RUnlock()
+	maxLabel := make(map[dvid.VersionID]uint64, len(d.MaxLabel))
+	for v, label := range d.MaxLabel {
+		maxLabel[v] = label
+	}
+	return maxLabel, d.MaxRepoLabel
+}
+
 func (d *Data) MarshalJSON() ([]byte, error) {
+	maxLabel, maxRepoLabel := d.copyMaxLabels()
 	return json.Marshal(struct {
 		Base     *datastore.Data
 		Extended propsJSON
@@ -1231,8 +1244,8 @@ func (d *Data) MarshalJSON() ([]byte, error) {
 		d.Data.Data,
 		propsJSON{
 			Properties:      d.Data.Properties,
-			MaxLabel:        d.MaxLabel,
-			MaxRepoLabel:    d.MaxRepoLabel,
+			MaxLabel:        maxLabel,
+			MaxRepoLabel:    maxRepoLabel,
 			IndexedLabels:   d.IndexedLabels,
 			CountLabels:     d.CountLabels,
 			MaxDownresLevel: d.MaxDownresLevel,
@@ -1241,6 +1254,7 @@ func (d *Data) MarshalJSON() ([]byte, error) {
 }
 
 func (d *Data) MarshalJSONExtents(ctx *datastore.VersionedCtx) ([]byte, error) {
+	maxLabel, maxRepoLabel := d.copyMaxLabels()
 	// grab extent property and load
 	extents, err := d.GetExtents(ctx)
 	if err != nil {
@@ -1263,8 +1277,8 @@ func (d *Data) MarshalJSONExtents(ctx *datastore.VersionedCtx) ([]byte, error) {
 		d.Data.Data,
 		propsJSON{
 			Properties:      props,
-			MaxLabel:        d.MaxLabel,
-			MaxRepoLabel:    d.MaxRepoLabel,
+			MaxLabel:        maxLabel,
+			MaxRepoLabel:    maxRepoLabel,
 			IndexedLabels:   d.IndexedLabels,
 			CountLabels:     d.CountLabels,
 			MaxDownresLevel: d.MaxDownresLevel,
